@@ -2,7 +2,39 @@
 (shared by C03, C07, C08).  Everything is generated as JSON; intermediate
 targets of chains are obtained by running the real glom on the prefix, so
 most chains resolve."""
+import json
+
 from harness import interp_common as ic
+
+# SWITCH (genuine glom defect, reported to the lead): an Inspect nested anywhere below an Inspect(recursive=True)
+# recurses without end -- Inspect.glomit stores the evaluator it replaces under the class-wide key scope[Inspect],
+# so the inner Inspect overwrites it with the outer one's _trace, which then calls itself:
+#   glom(1, Inspect(Inspect(T, echo=False), recursive=True, echo=False))  ->  RecursionError
+# (fix: key the stashed evaluator by the instance: scope[self] instead of scope[Inspect] in glomit / _trace).
+# The tracer also stays installed for the later steps of an enclosing chain, so the same happens for
+#   glom(1, (Inspect(T, recursive=True, echo=False), Inspect(T, echo=False))).
+# While False, a generated spec with a recursive Inspect contains no second Inspect (`gate_inspect`).
+NESTED_INSPECT_UNDER_RECURSIVE = False
+
+
+def gate_inspect(spec):
+    """applied to every generated spec: unless the switch is on, `recursive=True` survives only on a spec
+    with a single Inspect"""
+    if NESTED_INSPECT_UNDER_RECURSIVE:
+        return spec
+    txt = json.dumps(spec)
+    if txt.count('"k": "inspect"') > 1 and '"recursive": true' in txt:
+        def go(j):
+            if isinstance(j, dict):
+                j = {k: go(v) for k, v in j.items()}
+                if j.get('k') == 'inspect':
+                    j['recursive'] = False
+                return j
+            if isinstance(j, list):
+                return [go(x) for x in j]
+            return j
+        return go(spec)
+    return spec
 
 NAMES = ['a', 'b', 'c', 'd']
 UNARY = ['id', 'inc', 'neg', 'len', 'wrap', 'truthy', 'const7', 'first', 'is_int']
@@ -46,9 +78,12 @@ class Gen:
 
     def run(self, v, spec):
         """result of the real glom on (v, spec), or a marker"""
+        import contextlib
+        import io
         import glom
         try:
-            res = glom.glom(v, ic.build(spec, {}))
+            with contextlib.redirect_stdout(io.StringIO()):
+                res = glom.glom(v, ic.build(spec, {}))
             ic.enc(res)
             return ('ok', res)
         except Exception:
@@ -652,6 +687,84 @@ class Gen:
             xs.append(self.SKIPV if last['k'] == 'fn' else last)
         return {'k': r.choice(['tuple', 'tuple', 'pipe']), 'xs': xs}
 
+    def s_nestbind(self, v, depth):
+        """chains nested *directly* as steps of chains (tuple / Pipe in every combination, 1-3 levels), a binder
+        at a random level, readers of the bound name at every level afterwards (inside the binder's chain: sees
+        it; in the enclosing chains: sees what was visible before the inner chain, i.e. an earlier binding of
+        the same name or nothing).  Every chain, tuple or Pipe, is a link with a scope of its own."""
+        r = self.rng
+        T0 = {'k': 't', 'steps': []}
+        name = r.choice(self.POOL)
+        unb = lambda x: {'k': 'coalesce', 'subs': [x], 'dflt': {'k': 'lit', 'v': jv('unbound')}, 'dflt_factory': None,
+                         'skip': None, 'skip_exc': ['GlomError']}
+
+        def reader():
+            rd = r.choice([{'k': 'sRead', 'name': name, 'steps': [], 'item': r.random() < 0.4},
+                           {'k': 'sRead', 'name': name, 'steps': [], 'item': False},
+                           {'k': 'sGlobRead', 'name': name}])
+            q = r.random()
+            if q < 0.3:
+                return rd
+            if q < 0.7:
+                return unb(rd)
+            return {'k': 'dict', 'es': [[{'k': 'str', 's': 'rd'}, unb(rd)], [{'k': 'str', 's': 't'}, T0]]}
+
+        def binder(tag):
+            q = r.random()
+            if q < 0.4:
+                return {'k': 'sBind', 'bs': [[name, {'k': 'lit', 'v': jv(tag)}]]}
+            if q < 0.6:
+                return {'k': 'aBind', 'name': name}
+            if q < 0.7:
+                return {'k': 'aGlob', 'name': name}
+            if q < 0.8:
+                return {'k': 'let', 'bs': [[name, {'k': 'val', 'v': jv(tag)}]]}
+            if q < 0.9:
+                return {'k': 'specW', 's': T0, 'scope': [[name, jv(tag)]]}
+            return self.binder(v, 0)
+
+        levels = r.randint(2, 3)
+        bind_at = r.randrange(levels)                 # 0 = outermost
+
+        def level(i):
+            xs = []
+            if r.random() < 0.35:
+                xs.append(binder('lvl%d-early' % i) if r.random() < 0.5 else T0)
+            if i == bind_at:
+                xs.append(binder('lvl%d' % i))
+                if r.random() < 0.3:
+                    xs.append(self.skipper(v, name))
+            if i + 1 < levels:
+                xs.append(level(i + 1))
+                if r.random() < 0.3:
+                    xs.append(level(i + 1) if r.random() < 0.5 else T0)       # a sibling inner chain
+            if r.random() < 0.85 or i == 0:
+                xs.append(reader())
+            return {'k': r.choice(['tuple', 'pipe']), 'xs': xs}
+        return level(0)
+
+    def s_inspect(self, v, depth):
+        """Inspect(spec, echo=.., recursive=.., breakpoint=f, post_mortem=g): debugging aside it is Spec(spec) --
+        the wrapped spec is evaluated once, in the Inspect's own scope; `breakpoint` (an instrumented callable
+        taking no arguments) is called once before it, `post_mortem` once after an exception, which is re-raised.
+        (recursive=True is generated without callbacks only.)"""
+        r = self.rng
+        inner = self.spec(v, depth - 1)
+        if r.random() < 0.3:
+            inner = r.choice([{'k': 'str', 's': 'zz'}, self.fn('raise_ve'), self.fn('raise_glom'), inner])
+        j = {'k': 'inspect', 's': inner, 'bp': None, 'pm': None, 'echo': r.random() < 0.3, 'recursive': False}
+        q = r.random()
+        if q < 0.3:
+            j['recursive'] = True                 # (see `gate_inspect`)
+        else:
+            if r.random() < 0.5:
+                self.nfn += 1
+                j['bp'] = ['f%d' % self.nfn, r.choice(['mk_zero', 'mk_list', 'mk_zero', 'raise_ve'])]
+            if r.random() < 0.5:
+                self.nfn += 1
+                j['pm'] = ['f%d' % self.nfn, r.choice(['mk_zero', 'mk_list', 'mk_zero', 'raise_glom'])]
+        return j
+
     def s_and(self, v, depth):
         r = self.rng
         return {'k': r.choice(['and', 'or']), 'cs': [self.spec(v, depth - 1) for _ in range(r.randint(1, 3))],
@@ -770,6 +883,110 @@ class Gen:
                               {'k': 'pipe', 'xs': [self.probe(), self.modeprobe(v, 0)]}])
             return {'k': 'group', 's': inner}
         return {'k': w, 's': inner}
+
+    def s_modechain(self, v, depth):
+        """a Pipe that stands *inside* a Fill / Match / Auto wrapper -- directly, or through constructs that do not
+        change the mode (Spec(..), a Coalesce branch, a Switch case, an And / Or child, a dict value or list item
+        of a Fill shape, a Pipe step) -- whose steps include plain mode-sensitive objects at the first, a middle
+        and the last position: a tuple (Fill: constructor, Match: tuple pattern, Auto: chain), a list, a dict, a
+        str, nested tuples, with T / access / probe / literal leaves.  Pipe is not a mode wrapper: each of its
+        steps is interpreted in the mode in force around the Pipe.  The values the steps are built for come from
+        running the real glom on the prefix."""
+        r = self.rng
+        T0 = {'k': 't', 'steps': []}
+        w = r.choice(['fill', 'fill', 'fill', 'match', 'match', 'auto'])
+        xs = []
+
+        def run_in(cur, step):
+            wrapped = {'k': 'match', 's': step, 'dflt': None} if w == 'match' else {'k': w, 's': step}
+            st, res = self.run(cur, wrapped)
+            return res if st == 'ok' else cur
+
+        def taccess(cur):
+            a = self.access(cur)
+            return a if a['k'] == 't' else T0
+
+        def fill_obj(cur, d):
+            """a Fill-mode shape over the value cur"""
+            p = r.random()
+            if d <= 0 or p < 0.3:
+                return r.choice([T0, taccess(cur), {'k': 'str', 's': r.choice(['lit', 'a', 'a.b'])},
+                                 {'k': 'lit', 'v': jv(r.choice([1, None]))}, self.probe(),
+                                 {'k': 'auto', 's': self.access(cur)}, self.fn(self.fn_for(cur))])
+            if p < 0.75:
+                return {'k': 'tuple', 'xs': [fill_obj(cur, d - 1) for _ in range(r.randint(1, 3))]}
+            if p < 0.87:
+                return {'k': 'list', 'xs': [fill_obj(cur, d - 1) for _ in range(r.randint(1, 2))]}
+            return {'k': 'dict', 'es': [[{'k': 'str', 's': k}, fill_obj(cur, d - 1)] for k in r.sample(['x', 'y'], r.randint(1, 2))]}
+
+        def pattern(cur, d):
+            """a Match-mode pattern the value cur (mostly) matches"""
+            miss = r.random() < 0.08
+            if isinstance(cur, tuple) and d > 0 and not miss:
+                return {'k': 'tuple', 'xs': [pattern(x, d - 1) for x in cur]}
+            if isinstance(cur, list) and d > 0 and not miss:
+                alts = [pattern(x, d - 1) for x in cur[:2]] or [{'k': 'ty', 'name': 'int'}]
+                return {'k': 'list', 'xs': alts}
+            if isinstance(cur, dict) and d > 0 and not miss and all(isinstance(k, str) for k in cur):
+                return {'k': 'dict', 'es': [[{'k': 'ty', 'name': 'str'}, {'k': 'ty', 'name': 'object'}]]}
+            if miss:
+                return r.choice([{'k': 'ty', 'name': 'NoneType'}, {'k': 'str', 's': 'nomatch'}, {'k': 'tuple', 'xs': []}])
+            q = r.random()
+            if q < 0.2:
+                return self.probe()
+            if q < 0.5 and isinstance(cur, (int, str)) and not isinstance(cur, bool):
+                return {'k': 'str', 's': cur} if isinstance(cur, str) else {'k': 'lit', 'v': jv(cur)}
+            for name, ty in (('bool', bool), ('int', int), ('str', str), ('list', list), ('tuple', tuple), ('dict', dict)):
+                if isinstance(cur, ty):
+                    return {'k': 'ty', 'name': name}
+            return {'k': 'ty', 'name': 'object'}
+
+        if w == 'match' and not isinstance(v, (tuple, list)):
+            v = tuple(r.choice([1, 'tv', 0, 'x', (2, 'y'), [3]]) for _ in range(r.randint(1, 3)))
+            xs.append({'k': 'val', 'v': jv(v)})
+        cur = v
+        n = r.randint(1, 3)
+        sens_at = set(r.sample(range(n), r.randint(1, n)))
+        steps = []
+        for i in range(n):
+            if i in sens_at:
+                if w == 'match':
+                    s = pattern(cur, 2)
+                elif w == 'fill':
+                    s = fill_obj(cur, 2)
+                    if s['k'] not in ('tuple', 'list', 'dict', 'str') or r.random() < 0.6:
+                        s = {'k': 'tuple', 'xs': [fill_obj(cur, 1) for _ in range(r.randint(1, 3))]}
+                else:
+                    s = {'k': 'tuple', 'xs': [self.access(cur)] + ([self.fn(self.fn_for(cur))] if r.random() < 0.5 else [])}
+            else:
+                s = r.choice([T0, taccess(cur), {'k': 'auto', 's': self.access(cur)}, self.probe(),
+                              {'k': 'specW', 's': T0, 'scope': []}])
+            steps.append(s)
+            cur = run_in(cur, s)
+        body = {'k': 'pipe', 'xs': steps}
+        # between the wrapper and the Pipe: constructs that leave the mode alone
+        for _ in range(r.choice([0, 0, 1, 1, 2])):
+            q = r.random()
+            if q < 0.2:
+                body = {'k': 'specW', 's': body, 'scope': []}
+            elif q < 0.4:
+                body = {'k': 'coalesce', 'subs': [body] if r.random() < 0.7 else [{'k': 't', 'steps': [['[', jv('nope')]]}, body],
+                        'dflt': None, 'dflt_factory': None, 'skip': None, 'skip_exc': ['GlomError']}
+            elif q < 0.55:
+                body = {'k': 'switch', 'cases': [[T0, body]], 'dflt': None}
+            elif q < 0.7:
+                body = {'k': r.choice(['and', 'or']), 'cs': [body], 'dflt': None}
+            elif q < 0.85:
+                body = {'k': 'pipe', 'xs': [T0, body] if r.random() < 0.5 else [body]}
+            elif w == 'fill':
+                body = {'k': 'dict', 'es': [[{'k': 'str', 's': 'k'}, body]]} if r.random() < 0.5 else {'k': 'list', 'xs': [body, T0]}
+        spec = {'k': 'match', 's': body, 'dflt': None} if w == 'match' else {'k': w, 's': body}
+        after = []
+        if r.random() < 0.5:
+            after = [r.choice([self.probe(), self.modeprobe(v, 0)])]      # the mode ends with the wrapper
+        if xs or after:
+            return {'k': r.choice(['tuple', 'pipe']), 'xs': xs + [spec] + after}
+        return spec
 
     def s_lazy(self, v, depth, top=False):
         """a lazily evaluated stream -- Iter(sub) / Iter().map(sub) -- built under a mode wrapper that is a
